@@ -21,10 +21,11 @@ import (
 	"sync/atomic"
 	"time"
 
-	server "github.com/yandex/pandora/examples/grpc/server"
 	"github.com/yandex/pandora/core"
 	"github.com/yandex/pandora/core/engine"
 	"github.com/yandex/pandora/core/schedule"
+	server "github.com/yandex/pandora/examples/grpc/server"
+	"google.golang.org/grpc/codes"
 
 	"verif/harness/vkit"
 )
@@ -37,7 +38,7 @@ type Kind struct {
 }
 
 var kinds = []string{"http/uri", "http/uri+preload", "http/uripost", "http/raw", "http/jsonline", "http/jsonline+preload+shared-client", "connect/uri",
-	"http/scenario", "http/scenario+rand", "grpc/json", "grpc/json+shared-client", "grpc/scenario", "mock/ownership", "http/uri+phout+composite"}
+	"http/scenario", "http/scenario+rand", "http/scenario+failing-steps+phout", "grpc/json", "grpc/json+shared-client", "grpc/scenario", "grpc/scenario+failing-steps+phout", "mock/ownership", "http/uri+phout+composite"}
 
 func skipType(t reflect.Type) bool {
 	switch t.Name() {
@@ -250,6 +251,7 @@ func httpScenarioKind(res *vkit.Result, k Kind) {
 	defer tgt.Close()
 	var reqs, incoherent, tokMismatch atomic.Int64
 	var firstBad atomic.Value
+	failing := strings.Contains(k.Name, "failing-steps")
 	tgt.Respond = func(rec *vkit.ReqRec, w http.ResponseWriter, r *http.Request) {
 		reqs.Add(1)
 		u, h, b := marker(rec.URI), rec.Header.Get("X-Vid"), marker(string(rec.Body))
@@ -265,6 +267,12 @@ func httpScenarioKind(res *vkit.Result, k Kind) {
 			}
 		}
 		w.Header().Set("X-Tok", "tok-"+u)
+		if failing && reqs.Load()%3 == 0 {
+			// every third response fails the step's assertion / extraction
+			w.WriteHeader(500)
+			_, _ = w.Write([]byte(`not json`))
+			return
+		}
 		_, _ = w.Write([]byte(`{"tok":"t` + u + `","list":[1,2,3]}`))
 	}
 	base := vkit.WriteMem(nil)
@@ -288,8 +296,14 @@ func httpScenarioKind(res *vkit.Result, k Kind) {
 			vkit.RemoveMem(base + e)
 		}
 	}()
+	result := map[string]any{"type": "discard"}
+	if strings.Contains(k.Name, "phout") {
+		pp := fmt.Sprintf("/c11/out-%d.phout", time.Now().UnixNano())
+		defer vkit.RemoveMem(pp)
+		result = map[string]any{"type": "phout", "destination": pp, "id": true}
+	}
 	pool := poolMap(map[string]any{"type": "http/scenario", "file": base + ".yaml"}, map[string]any{"type": "http/scenario", "target": tgt.Addr},
-		map[string]any{"type": "discard"}, k.Instances, k.Ms)
+		result, k.Instances, k.Ms)
 	ec, err := vkit.DecodePools(map[string]any{"pools": []any{pool}})
 	if err != nil {
 		res.Inconclusive(true, "%s: config rejected: %v", k.Name, err)
@@ -383,11 +397,26 @@ scenarios:
 	if scn {
 		gunType = "grpc/scenario"
 	}
+	if strings.Contains(k.Name, "failing-steps") {
+		var n atomic.Int64
+		tgt.Status = func(rec *vkit.CallRec) (codes.Code, string) {
+			if n.Add(1)%3 == 0 {
+				return codes.Internal, "scripted failure"
+			}
+			return codes.OK, ""
+		}
+	}
 	gun := map[string]any{"type": gunType, "target": tgt.Addr, "timeout": "5s"}
 	if strings.Contains(k.Name, "shared-client") {
 		gun["shared-client"] = map[string]any{"enabled": true, "client-number": 2}
 	}
-	pool := poolMap(ammo, gun, map[string]any{"type": "discard"}, k.Instances, k.Ms)
+	gresult := map[string]any{"type": "discard"}
+	if strings.Contains(k.Name, "phout") {
+		pp := fmt.Sprintf("/c11/gout-%d.phout", time.Now().UnixNano())
+		defer vkit.RemoveMem(pp)
+		gresult = map[string]any{"type": "phout", "destination": pp, "id": true}
+	}
+	pool := poolMap(ammo, gun, gresult, k.Instances, k.Ms)
 	ec, err := vkit.DecodePools(map[string]any{"pools": []any{pool}})
 	if err != nil {
 		res.Inconclusive(true, "%s: config rejected: %v", k.Name, err)
@@ -449,7 +478,9 @@ func mockKind(res *vkit.Result, k Kind) {
 	prov := &vkit.MockProvider{Items: -1, FailAfter: -1}
 	aggr := &vkit.MockAggregator{FailAfter: -1}
 	pool := engine.InstancePoolConfig{ID: "p", Provider: prov, Aggregator: aggr, NewGun: plan.NewGun,
-		NewRPSSchedule:  func() (core.Schedule, error) { return schedule.NewUnlimited(time.Duration(k.Ms) * time.Millisecond), nil },
+		NewRPSSchedule: func() (core.Schedule, error) {
+			return schedule.NewUnlimited(time.Duration(k.Ms) * time.Millisecond), nil
+		},
 		StartupSchedule: schedule.NewOnce(int64(k.Instances)), RPSPerInstance: k.Rep%2 == 1}
 	rr := vkit.RunEngine(engine.Config{Pools: []engine.InstancePoolConfig{pool}}, nil, 60*time.Second)
 	judgeRun(res, k, rr)
